@@ -418,7 +418,15 @@ func protocolOfCT(ct string, kind svc.Kind) (protocol, codec string, streamCT bo
 func c07Case(run *ev.Run, reg *svc.Registry, handler *connect.Handler, _ string, kind svc.Kind, cfg, key string, h *hostileReq) {
 	drains := kind == svc.ClientStream || kind == svc.Bidi
 	var prog *svc.Program
-	if drains {
+	if kind == svc.ClientStream && len(h.body)%2 == 1 {
+		// a client-stream handler that polls Receive a few more times after it
+		// returned false (the stream keeps reporting its first error)
+		prog = &svc.Program{ReturnFirstRecvErr: true}
+		for i := 0; i < 6; i++ {
+			prog.Steps = append(prog.Steps, svc.Step{Op: "recv"})
+		}
+		prog.Steps = append(prog.Steps, svc.Step{Op: "sendsum"})
+	} else if drains {
 		prog = &svc.Program{Steps: []svc.Step{{Op: "recvall"}, {Op: "sendsum"}}, StopOnRecvErr: true}
 	} else {
 		prog = &svc.Program{Steps: []svc.Step{{Op: "recv"}, {Op: "sendsum"}}, StopOnRecvErr: true}
